@@ -176,12 +176,13 @@ func (r *R) Gen(ctx sdk.Context, g *hx.Rng) string {
 	}
 	var kind int
 	//            issue edit mint burn xfer swapfee deploy toerc fromerc hook fault params
+	//            issue edit mint burn xfer swapfee deploy toerc fromerc hook fault params evmtx
 	if r.mix == "c10" {
-		kind = g.Pick(8, 2, 12, 4, 2, 16, 8, 16, 14, 9, 5, 1)
+		kind = g.Pick(8, 2, 12, 4, 2, 16, 8, 16, 14, 6, 5, 1, 10)
 	} else if r.mix == "base" {
-		kind = g.Pick(10, 14, 20, 20, 8, 6, 0, 0, 0, 0, 0, 2)
+		kind = g.Pick(10, 14, 20, 20, 8, 6, 0, 0, 0, 0, 0, 2, 0)
 	} else {
-		kind = g.Pick(10, 14, 20, 20, 8, 3, 2, 3, 2, 1, 1, 2)
+		kind = g.Pick(10, 14, 20, 20, 8, 3, 2, 3, 2, 1, 1, 2, 1)
 	}
 	if len(user) == 0 && g.Chance(2, 3) {
 		kind = 0
@@ -199,7 +200,7 @@ func (r *R) Gen(ctx sdk.Context, g *hx.Rng) string {
 			swappable = append(swappable, x)
 		}
 	}
-	if (kind == 8 || kind == 9) && len(r.evm.Entries()) == 0 && g.Chance(5, 6) {
+	if (kind == 8 || kind == 9 || kind == 12) && len(r.evm.Entries()) == 0 && g.Chance(5, 6) {
 		kind = 7
 	}
 	if kind == 7 && nBound == 0 && g.Chance(5, 6) {
@@ -487,6 +488,82 @@ func (r *R) Gen(ctx sdk.Context, g *hx.Rng) string {
 			amt = big.NewInt(g.Range(-1, 0))
 		}
 		return "token hook_swap " + hx.KV("from", s, "contract", c, "to", to, "amount", amt)
+	case 12: // an EVM transaction with 1..3 SwapToNative logs; the tx target need not be the emitter
+		var bound []tokInfo
+		for _, t := range toks {
+			if t.contract != "" {
+				bound = append(bound, t)
+			}
+		}
+		pickEm := func() string {
+			switch {
+			case len(bound) > 0 && g.Chance(7, 10):
+				return bound[g.Intn(len(bound))].contract
+			case g.Chance(1, 2):
+				return fmt.Sprintf("U%d", g.Intn(3))
+			default:
+				return fmt.Sprintf("K%d", 1+g.Intn(8))
+			}
+		}
+		n := 1 + g.Pick(6, 3, 1)
+		if g.Chance(1, 30) {
+			n = 0
+		}
+		var logs []string
+		first := ""
+		spent := map[string]*big.Int{}
+		for i := 0; i < n; i++ {
+			em := pickEm()
+			if first == "" {
+				first = em
+			}
+			from, bal := acc(g), big.NewInt(0)
+			if strings.HasPrefix(em, "K") {
+				from, bal = r.evmHolder(g, em, false)
+			}
+			key := em + "/" + from
+			left := new(big.Int).Set(bal)
+			if sp, ok := spent[key]; ok {
+				left.Sub(left, sp)
+			}
+			var amt *big.Int
+			if n > 1 && left.Sign() > 0 && g.Chance(2, 3) {
+				amt = new(big.Int).Add(new(big.Int).Mod(g.BigRaw(left.BitLen()+4), left), big.NewInt(1))
+			} else {
+				amt = around(g, left)
+			}
+			if g.Chance(1, 25) {
+				amt = big.NewInt(g.Range(-1, 0))
+			}
+			if amt.Sign() > 0 {
+				if spent[key] == nil {
+					spent[key] = new(big.Int)
+				}
+				spent[key].Add(spent[key], amt)
+			}
+			to := acc(g)
+			if g.Chance(1, 10) {
+				to = anyAcc(g)
+			}
+			if g.Chance(1, 40) {
+				to = "-"
+			}
+			logs = append(logs, fmt.Sprintf("%s:%s:%s:%s", em, from, to, amt))
+		}
+		// the target: the (first) emitter itself, another bound contract, or an unbound router
+		target := first
+		if target == "" {
+			target = pickEm()
+		}
+		switch g.Pick(4, 3, 3) {
+		case 1:
+			if len(bound) > 0 {
+				target = bound[g.Intn(len(bound))].contract
+			}
+		case 2:
+			target = fmt.Sprintf("U%d", g.Intn(3))
+		}
+		return "token evm_tx " + hx.KV("target", target, "logs", hx.Dash(strings.Join(logs, ",")))
 	case 10: // contract misbehaviour
 		mode := []string{"none", "mint_revert", "mint_noop", "mint_short", "burn_revert", "burn_noop", "call_err", "bogus"}[g.Pick(8, 2, 2, 2, 2, 2, 2, 1)]
 		if r.evm.Fault != "none" && g.Chance(2, 3) {
